@@ -18,7 +18,11 @@ import (
 // Version and Issuer, raw and compressed. Fit is thin (no fault or schedule essential).
 
 var c20Ops = []string{"none", "dup-id", "dup-destination", "shadow-id-before", "shadow-id-after", "shadow-all-after", "second-issuer-last", "second-issuer-first", "issuer-after-status",
-	"nested-issuer", "foreign-ns-issuer", "comment-in-issuer", "cdata-in-issuer", "charref-in-issuer", "whitespace-around-issuer", "xml-decl-and-comment", "dup-version", "dup-inresponseto", "issuer-empty-then-real", "trailing-issuer", "pi-in-issuer", "pi-before-issuer-text", "envelope-issuer-differs"}
+	"nested-issuer", "foreign-ns-issuer", "comment-in-issuer", "cdata-in-issuer", "charref-in-issuer", "whitespace-around-issuer", "xml-decl-and-comment", "dup-version", "dup-inresponseto", "issuer-empty-then-real", "trailing-issuer", "pi-in-issuer", "pi-before-issuer-text", "envelope-issuer-differs",
+	"encrypted-issuer-after-issuer", "encrypted-issuer-last", "encrypted-issuer-first", "encrypted-status-last"}
+
+// the SPs behind the router share one decryption key (anyone can encrypt to its certificate)
+const c20SPKey = 4
 
 func init() {
 	register(&Prop{
@@ -28,7 +32,7 @@ func init() {
 			"oracle: whenever validation under any configured SP accepts, the pre-decode succeeded and reports the same ID, InResponseTo, Destination, Version, Issuer, so the routed-to configuration is the accepting one; distinct = shape hash (kind, placement, layout, envelope ops, presentation, outcomes)",
 		Directed:   c20Directed,
 		Run:        c20Run,
-		MustHit:    []string{"kind=Response", "kind=LogoutResponse", "op=dup-id", "op=shadow-id-after", "op=second-issuer-last", "op=second-issuer-first", "op=nested-issuer", "op=comment-in-issuer", "compressed", "skip_config", "accepted_with_ops", "route_to_B", "op=pi-in-issuer", "issuer_unconfigured"},
+		MustHit:    []string{"kind=Response", "kind=LogoutResponse", "op=dup-id", "op=shadow-id-after", "op=second-issuer-last", "op=second-issuer-first", "op=nested-issuer", "op=comment-in-issuer", "compressed", "skip_config", "accepted_with_ops", "route_to_B", "op=pi-in-issuer", "issuer_unconfigured", "op=encrypted-issuer-after-issuer", "op=encrypted-issuer-last"},
 		RandomRuns: map[string]int{"quick": 6000, "thorough": 80000},
 	})
 }
@@ -99,6 +103,7 @@ func c20Run(r *core.Run) {
 		cfg.Store = &world.SimCertStore{Certs: []*world.Cert{c}}
 		cfg.SkipSig = skip
 		cfg.AllowMissing = true
+		cfg.EncStyle, cfg.EncKeyIdx, cfg.EncCert = world.KeyField, c20SPKey, world.MintCert(c20SPKey, s.Epoch.Add(-time.Hour), s.Epoch.Add(1000*time.Hour), 3)
 		n, err := world.NewSPNode(&cfg, r.Sim.Time)
 		if err != nil {
 			r.HarnessError("build: %v", err)
@@ -341,6 +346,26 @@ func c20Apply(xml, op string, m *world.LResponse, other string) (string, bool) {
 		return strings.Replace(xml, issEl, otherEl, 1), true
 	case "whitespace-around-issuer":
 		return strings.Replace(xml, issEl, "\n  "+issEl+"\n  ", 1), true
+	case "encrypted-issuer-after-issuer", "encrypted-issuer-last", "encrypted-issuer-first", "encrypted-status-last":
+		// an EncryptedAssertion element whose plaintext is not an assertion but another child of the
+		// envelope: whatever the SP splices in after decryption, the pre-decoder cannot see
+		pt := `<saml:Issuer xmlns:saml="` + world.NSAssertion + `">` + otherText + `</saml:Issuer>`
+		if op == "encrypted-status-last" {
+			pt = `<samlp:Status xmlns:samlp="` + world.NSProtocol + `"><samlp:StatusCode Value="` + world.StatusOK + `"/></samlp:Status>`
+		}
+		eo := &world.EncOpts{DataAlg: world.DataAlgs[0], KeyAlg: world.KeyAlgs[0], Recipient: &world.Key(c20SPKey).RSA.PublicKey, Rand: core.NewDetReader(uint64(len(xml)) + 11)}
+		ex, err := world.EncryptAssertion(eo, []byte(pt))
+		if err != nil {
+			return xml, false
+		}
+		switch op {
+		case "encrypted-issuer-after-issuer":
+			return strings.Replace(xml, issEl, issEl+ex, 1), true
+		case "encrypted-issuer-first":
+			return strings.Replace(xml, issEl, ex+issEl, 1), true
+		}
+		i := strings.LastIndex(xml, "</")
+		return xml[:i] + ex + xml[i:], true
 	case "xml-decl-and-comment":
 		if strings.HasPrefix(xml, "<?xml") {
 			return xml, false
